@@ -246,13 +246,24 @@ ResolveIn(names, acc) == IF \E i \in 1..Len(names) : Accessor(names, i) = acc
 (* t.<acc>, t[row].<acc>, t[row, acc] = x : all resolve against the CURRENT names.
    `how` = "getattr" refreshes the cached map; the deviation lets the other two read the
    cached map although a column was renamed through a live view.                           *)
+(* the map every lookup goes through: rebuilt first iff some column is flagged as renamed
+   (Table._current_column_map); in the intended design it always equals the current names
+   because a stale cache is always flagged (invariant CmapFreshOrFlagged)                  *)
+CurrentMap(S, t) == IF \E o \in ColumnsOf(S, t) : S.wild[o] THEN NamesOf(S, t) ELSE S.cmap[t]
 LookupNames(S, t, how) ==
-  IF how # "getattr" /\ "CmapStale" \in Devs THEN S.cmap[t] ELSE NamesOf(S, t)
+  IF how # "getattr" /\ "CmapStale" \in Devs THEN S.cmap[t] ELSE CurrentMap(S, t)
+Refreshed(S, t) == [S EXCEPT !.cmap[t] = CurrentMap(S, t),
+                             !.wild = [o \in Obj |-> IF o \in ColumnsOf(S, t) THEN FALSE ELSE S.wild[o]]]
 Lookup(S, t, acc, how) ==
   LET r == ResolveIn(LookupNames(S, t, how), acc) IN
-  Same(IF how = "getattr" THEN [S EXCEPT !.cmap[t] = NamesOf(S, t),
-                                          !.wild = [o \in Obj |-> IF o \in ColumnsOf(S, t) THEN FALSE ELSE S.wild[o]]]
-       ELSE S, IF r = 0 THEN "Missing" ELSE "Col" \o ToString(r))
+  Same(IF how = "getattr" \/ "CmapStale" \notin Devs THEN Refreshed(S, t) ELSE S,
+       IF r = 0 THEN "Missing" ELSE "Col" \o ToString(r))
+(* dir(t): advertises the accessors of the CURRENT names; it may refresh the cache.  What
+   the code did (DirTames): clear the renamed flags WITHOUT storing the rebuilt map.        *)
+Dir(S, t) ==
+  IF "DirTames" \in Devs
+    THEN Same([S EXCEPT !.wild = [o \in Obj |-> IF o \in ColumnsOf(S, t) THEN FALSE ELSE S.wild[o]]], "Ok")
+    ELSE Same(Refreshed(S, t), "Ok")
 
 (* ------------------------------------------------------------------ views (C01) *)
 VecView(S, o) == <<Contents(S, o), S.name[o], S.kind[o], S.nullable[o]>>
